@@ -392,6 +392,7 @@ def run(facts, rep, tier):
     from . import c01 as _c01
     _c01.rule_r7(facts, rep, rid="C10-R7")
     _c01.rule_r8(facts, rep, rid="C10-R7b")
+    _c01.rule_r12(facts, rep, rid="C10-R7c")
 
 class _Conv:
     """Forwards only the instances located in the list/section conversion actions."""
